@@ -67,6 +67,8 @@ REG_NAMES = ['regA', 'regB-exact', 'regC-iter']
 def replay(hist, final_all):
     """runs inside a forked child; returns (list of (event, observed, expected-key) mismatching records, state digest)"""
     from .. import c06pool as P
+    import warnings
+    warnings.simplefilter('ignore')
     P.lower_cache_bound(4)
     star, regs = True, set()
     fills = 0
